@@ -199,6 +199,10 @@ def classify(check, sim, sc, verdict, obs):
                 report = text
     if vio and cls != 'harness-error':
         cls = 'violation'
+    if sim.harness_errors:
+        # the harness itself made a programming error during this run: nothing it observed afterwards is believed
+        cls = 'harness-error'
+        report = sim.harness_errors[0]
     res = {
         'cls': cls,
         'verdict': kind,
